@@ -3,6 +3,7 @@ import ast
 import re
 
 from ..model import U, body_without_doc, AnalysisError
+from ..consteval import try_fold
 from ..seqx import Extractor, paths, count_bytes
 from ..absint import Interp, Ctor, Lin, Const, Opq, PathCap
 from ..refs import cocotape as T
@@ -970,6 +971,46 @@ def cas5(ctx, c):
         c.undecided("read_blocks:payload", "payload-copy-not-recognised", "", whereb)
 
 
+def cas5b(ctx, c):
+    cas5(ctx, c)
+    repo = ctx.repo
+    C = repo.cls(CLS)
+    # the not-found value of skip_to_sequence is the value its callers test for
+    sk = C.methods.get("skip_to_sequence")
+    if sk is not None:
+        last = body_without_doc(sk.node)[-1]
+        sentinel = try_fold(last.value, ctx.env) if isinstance(last, ast.Return) and last.value is not None else None
+        if sentinel is None:
+            c.undecided("skip_to_sequence:not-found", "sentinel-not-constant", "", repo.loc(sk, sk.node))
+        else:
+            for f in C.methods.values():
+                got = set()
+                for n in ast.walk(f.node):
+                    if isinstance(n, ast.Assign) and isinstance(n.value, ast.Call) and U(n.value.func) == "self.skip_to_sequence":
+                        got.add(U(n.targets[0]))
+                for n in ast.walk(f.node):
+                    if isinstance(n, ast.Compare) and len(n.ops) == 1 and isinstance(n.ops[0], (ast.Eq, ast.NotEq)) and U(n.left) in got:
+                        k = try_fold(n.comparators[0], ctx.env)
+                        if isinstance(k, int) and not isinstance(k, bool):
+                            c.check(k == sentinel, "%s:not-found-test" % f.name, "tests for %d, the value skip_to_sequence returns when nothing is found" % sentinel,
+                                    "tests for %d, skip_to_sequence returns %d" % (k, sentinel),
+                                    "%s.%s compares the result of skip_to_sequence with %d, but a failed search returns %d: a tape that ends early is parsed from a bogus "
+                                    "position instead of being reported" % (CLS, f.name, k, sentinel), repo.loc(f, n))
+    # the extension given to a file read from tape follows its type: machine language (2) is BIN
+    rf = C.methods.get("read_file")
+    if rf is not None:
+        for n in ast.walk(rf.node):
+            if isinstance(n, ast.If) and isinstance(n.test, ast.Compare) and len(n.test.ops) == 1 and "type" in U(n.test.left) and \
+                    any(isinstance(x, ast.Assign) and U(x.targets[0]) == "extension" for x in n.body):
+                k = try_fold(n.test.comparators[0], ctx.env)
+                ext = [try_fold(x.value, ctx.env) for x in n.body if isinstance(x, ast.Assign) and U(x.targets[0]) == "extension"]
+                if isinstance(k, int) and ext and isinstance(ext[0], str) and ext[0].upper() == "BIN":
+                    c.check(isinstance(n.test.ops[0], ast.Eq) and k == T.FILE_OBJECT if hasattr(T, "FILE_OBJECT") else (isinstance(n.test.ops[0], ast.Eq) and k == 2),
+                            "read_file:extension", "BIN for file type 2 (machine language)", "BIN when the type %s %d" % (type(n.test.ops[0]).__name__, k),
+                            "CassetteFile.read_file labels a file BIN when its type %s %d; machine-language files are type 2, so BASIC and data files are mislabelled when "
+                            "copied to a disk" % ({"Eq": "==", "NotEq": "!="}.get(type(n.test.ops[0]).__name__, "?"), k), repo.loc(rf, n))
+
+
 def cas3(ctx, c):
     """input not consumed: writers never mutate the data they are given (C09/C11/C16: the same CoCoFile is written to several containers)"""
     repo = ctx.repo
@@ -1025,4 +1066,4 @@ def cas3(ctx, c):
         raise AnalysisError("CAS-3 canary failed")
 
 
-RULES.update({"CAS-5": cas5, "CAS-3": cas3})
+RULES.update({"CAS-5": cas5b, "CAS-3": cas3})
